@@ -156,3 +156,7 @@ Proof.
   - apply str_in_iff. vm_compute. reflexivity.
   - apply str_in_false. vm_compute. reflexivity.
 Qed.
+
+(* the source still runs the build tail in the order ResMapModel.finalize models *)
+Lemma gen_tail_order : tail_order_b = true.
+Proof. vm_compute. reflexivity. Qed.
